@@ -2088,6 +2088,10 @@ class SSHClientTransport(SSHTransportBase):
         """
         SSHTransportBase._keySetup(self, sharedSecret, exchangeHash)
         if self._gotNewKeys:
+            # The early NEWKEYS belongs to this key exchange only: forget it,
+            # or the next re-key would switch keys before the server's
+            # NEWKEYS has arrived.
+            self._gotNewKeys = 0
             self.ssh_NEWKEYS(b"")
 
     def ssh_NEWKEYS(self, packet):
